@@ -1324,6 +1324,9 @@ func (e *Exec) eqValue(a, b Value) *Term {
 			if b == nil {
 				return BoolT(x.O == nil)
 			}
+			if iv, isInt := b.(IntV); isInt && x.O == nil {
+				return BoolT(iv.Nil)
+			}
 			return False
 		}
 		if x.O != y.O || len(x.Path) != len(y.Path) {
@@ -1401,6 +1404,9 @@ func (e *Exec) eqValue(a, b Value) *Term {
 				return BoolT(x.Nil && y.Nil)
 			}
 			return Eq(x.T, y.T)
+		}
+		if p, isPtr := b.(Ptr); isPtr && p.O == nil {
+			return BoolT(x.Nil) // a *big.Int value compared with nil
 		}
 	case TimeV:
 		y, ok := b.(TimeV)
